@@ -474,6 +474,10 @@ def round5():
         R("r5-davidson-2norm", "C05", "xitorch/_impls/linalg/symeig.py", "        max_resid = resid.abs().max()", "        max_resid = torch.linalg.vector_norm(resid, ord=2)", "C05-D"),
         R("r5-tallqr-solve-triangular-ok", "C05", "xitorch/_utils/tensor.py", "    Rinv = torch.inverse(R)  # (*BMV, nguess, nguess)\n    Q = torch.matmul(V, Rinv)", "    Q = torch.linalg.solve_triangular(R, V, upper=True, left=False)", expect="silent"),
         R("r5-tallqr-solve-triangular-left", "C05", "xitorch/_utils/tensor.py", "    Rinv = torch.inverse(R)  # (*BMV, nguess, nguess)\n    Q = torch.matmul(V, Rinv)", "    Q = torch.linalg.solve_triangular(R, V.transpose(-2, -1), upper=True, left=True).transpose(-2, -1)", "C05-Q"),
+        # C12-A: absolute value of the interval length, decided for both orientations
+        R("r5-leg-abs-nodes-only-ok", "C12", FQ, "    xs = xlg * (0.5 * (xu - xl)) + (0.5 * (xu + xl))  # (n, *nx)", "    xs = xlg * (0.5 * torch.abs(xu - xl)) + (0.5 * (xu + xl))  # (n, *nx)", expect="silent",
+          note="mirrored node set with the same (symmetric) weights is the same rule"),
+        R("r5-leg-abs-weights", "C12", FQ, "    wlg *= 0.5 * (xu - xl)", "    wlg *= 0.5 * (xu - xl).abs()", "C12-A"),
         # class tokens: table-driven dispatch
         R("r5-dispatch-table-ok", "C09", PF, "        if isinstance(obj, EditableModule):\n            return EditableModulePureFunction(obj, fcn)\n        elif isinstance(obj, torch.nn.Module):\n            return TorchNNPureFunction(obj, fcn)\n        else:\n            raise RuntimeError(errmsg)",
           "        for objtype, wrapper in ((EditableModule, EditableModulePureFunction), (torch.nn.Module, TorchNNPureFunction)):\n            if isinstance(obj, objtype):\n                return wrapper(obj, fcn)\n        raise RuntimeError(errmsg)", expect="silent"),
